@@ -2,21 +2,27 @@ package main
 
 import (
 	"fmt"
-	"os"
 
 	"github.com/jsightapi/jsight-schema-core/notations/jschema"
 )
 
 func main() {
-	for _, t := range os.Args[1:] {
-		seen := map[string]int{}
-		for i := 0; i < 200; i++ {
-			err := jschema.New("root", t).Check()
-			seen[fmt.Sprint(err)]++
-		}
-		fmt.Printf("%q:\n", t)
-		for k, v := range seen {
-			fmt.Printf("  %3d x %.300q\n", v, k)
-		}
-	}
+	root := "{\n  \"p0\": @t1, // {optional: true}\n  \"p1\": @t1 // {nullable: true}\n}"
+	t1 := "{\n  \"p0\": [@main],\n  \"p1\": @main | @t2,\n  \"p2\": 1\n}"
+	t2 := "{}"
+	s := jschema.New("@main", root)
+	fmt.Println(s.AddType("@t1", jschema.New("@t1", t1)))
+	fmt.Println(s.AddType("@t2", jschema.New("@t2", t2)))
+	fmt.Println(s.AddType("@main", s))
+	fmt.Println("check:", s.Check())
+	ex, err := s.Example()
+	fmt.Println("example:", string(ex), err)
+	// 3-cycle
+	s = jschema.New("@main", "{\n \"a\": @t1\n}")
+	s.AddType("@t1", jschema.New("@t1", "{\n \"a\": @t2\n}"))
+	s.AddType("@t2", jschema.New("@t2", "{\n \"a\": @main\n}"))
+	s.AddType("@main", s)
+	fmt.Println("3-cycle check:", s.Check())
+	ex, err = s.Example()
+	fmt.Println("example:", string(ex), err)
 }
